@@ -103,7 +103,7 @@ def partitions(cx, exe, drv):
             uniq.append(k)
     lines = ["P %d %d %d %d" % k for k in uniq]
     kl = lambda l: " ".join(l.split()[1:5])
-    out_impl, crashes = vp.run_cases(exe, lines, kl, kl, timeout=900)
+    out_impl, crashes = vp.run_cases(exe, lines, kl, kl, timeout=cx.pick(300, 900))
     for cl, rc, err in crashes:
         cx.violation("partition-crash", "Partition::GetPartition crashed or hung (rc=%s): %s" % (rc, err[-200:]), {"case": cl})
     out_model = run_parallel(drv, lines, 4)
@@ -153,10 +153,10 @@ def reindexes(cx, exe, drv):
         fwd = [rng.randrange(2) for _ in range(4)]
         lines.append("R " + " ".join(map(str, d + tv + eo + fwd + [5000])))
     kl = lambda l: " ".join(l.split()[1:18])
-    out_impl, crashes = vp.run_cases(exe, lines, kl, kl, timeout=900)
+    out_impl, crashes = vp.run_cases(exe, lines, kl, kl, timeout=cx.pick(300, 900))
     for cl, rc, err in crashes:
         cx.violation("reindex-crash", "Partition::Reindex crashed (rc=%s): %s" % (rc, err[-200:]), {"case": cl})
-    rc, out_model, err = vp.sh2([drv], input="\n".join(lines) + "\n", timeout=900)
+    rc, out_model, err = vp.sh2([drv], input="\n".join(lines) + "\n", timeout=cx.pick(300, 900))
     impl = {kl(l): l for l in out_impl.splitlines() if l.startswith("R ")}
     model = {kl(l): l for l in out_model.splitlines() if l.startswith("R ")}
     mism = [kl(l) for l in lines if impl.get(kl(l)) != model.get(kl(l))]
@@ -170,7 +170,7 @@ def reindexes(cx, exe, drv):
     for (d, a1, a2, b1, b2) in tuples:
         comp.append("R %d %d %d 0 10 11 12 -1 1000 2000 3000 0 1 1 0 0 5000" % (d, a1, a2))
         comp.append("R %d %d %d 0 11 10 13 -1 1000 4000 6000 0 0 1 0 0 7000" % (d, b1, b2))
-    out_c, _ = vp.run_cases(exe, comp, kl, kl, timeout=900)
+    out_c, _ = vp.run_cases(exe, comp, kl, kl, timeout=cx.pick(300, 900))
     oc = [l for l in out_c.splitlines() if l.startswith("R ")]
     for i, (d, a1, a2, b1, b2) in enumerate(tuples):
         if 2 * i + 1 >= len(oc):
@@ -229,9 +229,13 @@ SURF_MAX = 1 << 10   # units of 2^-40: 2^-30 absolute (coordinates are O(1..5))
 def e2e(cx, exe, drv, budget):
     rng = random.Random(cx.seed * 65537 + 1919)
     cases = gen_e2e(rng, budget)
+    corpus = os.path.join(vp.ROOT, "corpus", "C19", "e2e.txt")
+    if os.path.exists(corpus):
+        extra = [tuple(map(int, l.split())) for l in open(corpus) if l.strip() and not l.startswith("#")]
+        cases = [(100000 + i, "corpus") + t for i, t in enumerate(extra)] + cases
     lines = [e2e_line(c) for c in cases]
     kl = lambda l: l.split()[1] if l.startswith("E ") else None
-    out, crashes = vp.run_cases(exe, lines, kl, kl, timeout=1500)
+    out, crashes = vp.run_cases(exe, lines, kl, kl, timeout=cx.pick(120, 1500), max_restarts=40)
     for cl, rc, err in crashes:
         t = cl.split()
         op2 = len(t) > 5 and t[5] == "2"
@@ -248,7 +252,7 @@ def e2e(cx, exe, drv, budget):
         if r and "div" in r and r["div"]:
             for t in r["div"].split(","):
                 triples.add(tuple(map(int, t.split(":")[:3])))
-    rc, pout, _ = vp.sh2([drv], input="".join("P %d %d %d 0\n" % t for t in sorted(triples)), timeout=900)
+    rc, pout, _ = vp.sh2([drv], input="".join("P %d %d %d 0\n" % t for t in sorted(triples)), timeout=cx.pick(300, 900))
     pcount = {}
     for l in pout.splitlines():
         m = re.match(r"P (\d+) (\d+) (\d+) 0 .* T (\d+) TV", l)
